@@ -175,7 +175,7 @@ def bridge_job(need, control=None):
     """two deployments of the service joined by the hub (spec/Bridge.tla): the bytes one side announces are the bytes
     the other side is handed"""
     return {"kind": "graph", "spec": "MC_Bridge", "module": "Bridge", "evkinds": ITS_EVENTS, "need": need, "control": control,
-            "max_len": 40, "workers": 16, "quick_edges": 2500, "field_prefixes": ["A.", "B."],
+            "max_len": 40, "workers": 16, "quick_edges": 2500, "thorough_edges": 40000, "field_prefixes": ["A.", "B."],
             "revisit": {"quick_budget": 800, "quick_arrival_budget": 800}}
 
 
@@ -231,7 +231,7 @@ PROPS = {
     "C03": {
         "title": "Rotation installs only well-formed sets, authorised by the latest signers",
         "policy": {
-            "guards": ["wellformed", "duplicate", "latest_or_bypass", "signatures", "set_known", "nonempty_list"],
+            "guards": ["wellformed", "duplicate", "latest_or_bypass", "signatures", "set_known", "nonempty_list", "operator_auth"],
             "fields": ["epoch", "hashByEpoch", "epochOf"],
             "invariants": ["LookupsInverse", "InstalledWellFormed", "EpochLen"],
             "events": ["signers_rotated"],
@@ -383,9 +383,11 @@ PROPS = {
              "need": ["CollectFees/ok", "CollectFees/collector_auth", "Refund/collector_auth", "TransferOwnership/ok"], "control": other_amount_control},
             fees_job(["PayGas/ok", "OpExecute/ok", "OpExecute/sufficient_balance", "OpExecute/negative_amount", "CollectFees/collector_auth", "Refund/collector_auth"],
                      upstream=["is_operator", "named_auth", "role_auth", "membership"]),
+            # unbounded amounts and histories: the balance equation as an inductive invariant (Apalache)
+            {"kind": "apalache", "tiers": ["thorough"], "module": "FeesInd", "inv": "IndInv", "refute": "NotInvariant", "refute_init": "RefuteInit"},
             GAS_TRACE,
         ],
-        "level_text": "TLC proves the step rules (exact movement between spender/receiver and the service, per-token conservation, pay-outs only with the collector's authorisation and never beyond the holding, one event with the same token and amount, rejected calls move nothing) on every transition of a finite instance (all interleavings); the transitions are executed against the real gas service with a Stellar asset contract and the natively registered interchain token, comparing every balance of both tokens after every step.  Composed with the operators contract as collector (spec/Fees.tla, MC_Fees): pay-outs only through a forwarded call of a current operator who authorised it; the gas part of every composed step is a GasService step.",
+        "level_text": "TLC proves the step rules (exact movement between spender/receiver and the service, per-token conservation, pay-outs only with the collector's authorisation and never beyond the holding, one event with the same token and amount, rejected calls move nothing) on every transition of a finite instance (all interleavings); the transitions are executed against the real gas service with a Stellar asset contract and the natively registered interchain token, comparing every balance of both tokens after every step.  Composed with the operators contract as collector (spec/Fees.tla, MC_Fees): pay-outs only through a forwarded call of a current operator who authorised it; the gas part of every composed step is a GasService step.  Thorough additionally discharges, with Apalache, an inductive invariant of the design over unbounded integer amounts and unbounded histories (spec/apalache/FeesInd.tla): holding = paid in - paid out (+ donated), no negative balance, constant supply, the holding shrinks only in a current operator's step.",
         "rule": "cases = transitions of the bounded TLC instance replayed against the contracts; distinct = distinct (abstract pre-state, action) pairs",
         "assumptions": ["soroban-env-host test mode implements on-chain semantics incl. the built-in Stellar asset contract", "bounds: 2 tokens x 3 units, 2 spenders, 2 receivers, amounts -1..3"],
     },
